@@ -8,6 +8,14 @@ from . import text as G
 
 # programs that exercise the semantic rules while being valid somewhere in 3.6-3.13
 VALID_SNIPPETS = [
+    # starred targets whose operand is no plain name; the only yield of a function inside an f-string field
+    'first, *self.rest = items\n', 'head, *(mid, last) = items\n', 'for key, *obj.values in rows: pass\n', '*a[0], b = c\n', '[*a.b] = c\n',
+    'a, *[b, c] = d\n', 'with x as (a, *b.c): pass\n', '[x for a, *b.c in d]\n', 'a, *(b, *c.d) = e\n', 'for *a[i], b in c: pass\n',
+    "def f():\n    return f'{(yield)}'\n", "def f(y):\n    return f'y:{yield y*2}'\n", "async def f():\n    x = f'{a:{(yield)}}'\n",
+    "def f():\n    x = 'a' f'{(yield from g())}' 'b'\n", "def f():\n    return f'yield'\n", "def f():\n    return f'{lambda: (yield)}'\n",
+    "def f():\n    return f'{x!r:{(yield)}}'\n", "def f():\n    return [f'{(yield)}']\n",
+    'async def f():\n    return [(y := x) async for x in z]\n',
+    'async def f():\n    return [x async for x in z if (y := x)]\n', 'from __future__ import barry_as_FLUFL\n',
     'def f():\n    global x\n    x = 1\n', 'def f():\n    x = 1\n    def g():\n        nonlocal x\n        x = 2\n    return g\n',
     'class A:\n    def f(self):\n        nonlocal_ = 1\n        return __class__\n',
     'class A:\n    def f(self):\n        def g():\n            nonlocal __class__\n        return g\n',
@@ -130,12 +138,79 @@ def mutate(prog, rng, n=None):
     return prog
 
 
+
+# ---------------------------------------------------------------------------
+# compositional generators: binding targets in every binding context; yield/await at every expression position
+
+def _target(rng, depth=0, star_ok=True):
+    r = rng.random()
+    if depth > 2 or r < .35:
+        return rng.choice(['a', 'b', 'x', 'self', '_', 'é'])
+    if r < .5:
+        return _target(rng, depth + 1, False) + rng.choice(['.attr', '.a.b', '[0]', '[i, j]', '[1:2]', '().z', '(k)[0]'])
+    if r < .6 and star_ok:
+        return '*' + _target(rng, depth + 1, False)
+    elems = [_target(rng, depth + 1, True) for _ in range(rng.randint(1, 3))]
+    if sum(e.startswith('*') for e in elems) > 1:
+        elems = [e.lstrip('*') if k else e for k, e in enumerate(elems)]
+    body = ', '.join(elems) + (',' if len(elems) == 1 or rng.random() < .2 else '')
+    return rng.choice(['(%s)', '[%s]', '(%s)', '%s' if depth == 0 else '(%s)']) % body
+
+
+def target_program(rng):
+    """one binding statement around a composed target (most compile; the reference decides)"""
+    t = _target(rng)
+    plain = t.lstrip('*') if t.startswith('*') else t
+    forms = ['%s = value\n' % (t + ',' if t.startswith('*') else t), 'p = %s = value\n' % plain, 'for %s in rows:\n    pass\n' % (t + ',' if t.startswith('*') else t),
+             'with ctx as %s:\n    pass\n' % plain, 'with (c1 as %s, c2 as q):\n    pass\n' % plain, 'r = [0 for %s in rows]\n' % (t + ',' if t.startswith('*') else t),
+             'r = {k: 0 for k, %s in rows}\n' % plain, 'del %s\n' % plain, 'async def f():\n    async for %s in rows:\n        pass\n' % plain,
+             'async def f():\n    async with ctx as %s:\n        pass\n' % plain, 'def f():\n    return (0 for %s in rows if a)\n' % plain,
+             'try:\n    pass\nexcept E as %s:\n    pass\n' % rng.choice(['a', 'err']), '%s += 1\n' % rng.choice(['a', 'a.b', 'a[0]', 'a.b[c].d']),
+             '%s: int = 1\n' % rng.choice(['a', 'a.b', 'a[0]', '(a)', '(a.b)']), 'match value:\n    case %s:\n        pass\n' % rng.choice(['[a, *b]', '{"k": a, **b}', 'A(b=c) | D()', 'a as b', '(a, b) if a else c']) ]
+    s = rng.choice(forms)
+    if rng.random() < .3:
+        s = rng.choice(['def g():\n', 'class K:\n', 'async def g():\n']) + ''.join('    ' + l for l in s.splitlines(True))
+    return s
+
+
+_YIELD_FORMS = ['(yield)', '(yield 1)', '(yield from g())', '(await h())']
+_HOLES = ['x = %s\n', 'return %s\n', "s = f'{%s}'\n", "s = f'a{b:{%s}}c'\n", "s = 't' f'{%s!r}' 'u'\n", 'k = lambda: %s\n', 'k = [%s for i in j]\n', 'k = [i for i in %s]\n',
+          'def inner(a=%s):\n    pass\n', 'def inner():\n    return %s\n', 'class Inner:\n    z = %s\n', '@deco(%s)\ndef inner():\n    pass\n', 'class Inner(%s):\n    pass\n',
+          'def inner() -> %s:\n    pass\n', 'def inner(a: %s):\n    pass\n', 'h(%s, k=%s)\n', 'x[%s] = 1\n', 'del x[%s]\n', 'assert %s, m\n', 'raise E(%s)\n',
+          'with %s as w:\n    pass\n', 'for i in %s:\n    pass\n', 'if %s:\n    pass\nelif c:\n    pass\n', 'while %s:\n    break\n', 'x = y if %s else z\n',
+          'x = {%s: 1}\n', 'x = {1: %s}\n', 'x = (%s,)\n', 'x = [*%s]\n', 'print(*%s)\n', 'x = not %s\n', 'x = -%s\n', 'x = a < %s < b\n', '(z := %s)\n',
+          'try:\n    pass\nexcept %s:\n    pass\n', 'k = lambda a=%s: a\n', 'x: %s = 1\n', 'x: int = %s\n', 'match %s:\n    case _:\n        pass\n', 'type T = %s\n']
+
+
+def yield_program(rng):
+    """a function with yield/await expressions at one or two expression positions (or none), CPython decides what it is"""
+    n = rng.choice([0, 1, 1, 1, 2])
+    body = []
+    for _ in range(rng.randint(1, 3)):
+        hole = rng.choice(_HOLES)
+        fill = rng.choice(_YIELD_FORMS) if n > 0 and rng.random() < .7 else rng.choice(['v', '(w)', "'yield'", "f'yield'", 'await_', 'yield_'])
+        if fill in _YIELD_FORMS:
+            n -= 1
+        body.append(hole.replace('%s', fill))
+    if rng.random() < .3:
+        body.insert(rng.randint(0, len(body)), rng.choice(['yield\n', 'yield v\n', 'return\n', 'return v\n', 'raise\n', 'raise E from v\n', 'pass\n']))
+    head = rng.choice(['def f(p):\n', 'async def f(p):\n', 'def f(p):\n', 'class K:\n    def m(self):\n'])
+    ind = '        ' if head.startswith('class') else '    '
+    return head + ''.join(ind + l for stmt in body for l in stmt.splitlines(True))
+
+
 def candidates(rng, files, deriver=None):
     """endless stream of candidate programs (origin, text); most compile, the filter decides"""
     while True:
         r = rng.random()
         if rng.random() < .2:
             yield 'lexical', lexical_program(rng)
+            continue
+        if rng.random() < .12:
+            yield 'targets', target_program(rng)
+            continue
+        if rng.random() < .12:
+            yield 'yields', yield_program(rng)
             continue
         if r < .25:
             s = rng.choice(VALID_SNIPPETS)
